@@ -420,6 +420,46 @@ fn case(idx: u64, seed: u64, stats: &mut Counts) -> R<(String, bool)> {
         if specs.is_empty() {
             return Ok(("all option sets rejected at creation".to_string(), false));
         }
+        if rng.chance(1, 3) {
+            // internal-id reuse: a keyspace with its own (benign) option set is created last and deleted again; after a
+            // reopen a new keyspace is created, which gets the freed id: nothing of the deleted keyspace's stored options
+            // may show up in it
+            {
+                let db = open_db(&dir, false).map_err(|e| Deviation::new("options:reopen-failed", format!("reopen before victim: {e:?}")))?;
+                let mut r4 = rng.fork();
+                let made = catch_unwind(AssertUnwindSafe(|| {
+                    let (o, _) = gen(&mut r4, true);
+                    db.keyspace("zz-victim", || o)
+                }));
+                if let Ok(Ok(victim)) = made {
+                    let vid = victim.id();
+                    db.delete_keyspace(victim).map_err(|e| Deviation::new("unexpected-error:delete", format!("{e:?}")))?;
+                    stats.inc("victim_keyspaces_deleted");
+                    drop(db);
+                    let db = open_db(&dir, false).map_err(|e| Deviation::new("options:reopen-failed", format!("reopen after deleting a keyspace: {e:?}")))?;
+                    let mut r5 = rng.fork();
+                    let made = catch_unwind(AssertUnwindSafe(|| {
+                        let (o, spec) = gen(&mut r5, true);
+                        (db.keyspace("o9", || o), spec)
+                    }));
+                    if let Ok((Ok(ks), spec)) = made {
+                        if ks.id() == vid {
+                            stats.inc("keyspaces_created_on_reused_id");
+                        }
+                        let now = observe(&ks);
+                        if let Some(d) = diff(&spec, &now) {
+                            return Err(Deviation::new("options:differ-at-creation", format!("keyspace o9 (created on the id of a deleted keyspace): {d}")));
+                        }
+                        specs.push(("o9".to_string(), spec, ks.verif_config_kvs()));
+                        stats.inc("keyspaces_created");
+                    } else {
+                        let _ = crate::take_panic();
+                    }
+                } else {
+                    let _ = crate::take_panic();
+                }
+            }
+        }
         let reopens = rng.range(1, 2);
         for round in 0..reopens {
             let with_filters = rng.chance(1, 3);
